@@ -74,7 +74,8 @@ Record lstate := { l_code : list tinstr;                 (* programs laid out so
 Fixpoint assoc_find (l : list (nat * Z)) (r : nat) : option Z :=
   match l with [] => None | (k, v) :: rest => if Nat.eqb k r then Some v else assoc_find rest r end.
 
-(* the terminator of the first program is a jump to the end (patched later): a marker TI (IJump 0) at l_halt *)
+(* the grammar program starts with: [whitespace block;] call start_rule; jump END -- the jump is a marker
+   TI (IJump 0) at address l_halt, patched once the layout is known *)
 Definition expand_callees (cs : list (nat * Z * bool)) (callstack : list (nat * bool)) (lrec : list nat)
   : list nat * list (list (nat * bool) * nat) :=
   (* returns (new left-recursive set, work items to push in order) *)
@@ -96,10 +97,8 @@ Definition link_step (rt : rtable) (s : lstate) : lstate :=
       | None =>
           let address := len (l_code s) in
           let code := cg (r_body (rt_get rt r)) in
-          let term := match l_halt s with None => TI (IJump 0) | Some _ => TI IRet end in
-          let halt := match l_halt s with None => Some (address + len code) | h => h end in
           let '(lr, pushes) := expand_callees (callees_of code 0) callstack (l_lrec s) in
-          {| l_code := l_code s ++ code ++ [term]; l_addrs := (r, address) :: l_addrs s; l_lrec := lr; l_halt := halt;
+          {| l_code := l_code s ++ code ++ [TI IRet]; l_addrs := (r, address) :: l_addrs s; l_lrec := lr; l_halt := l_halt s;
              l_work := work' ++ pushes |}
       end
   end.
@@ -149,7 +148,8 @@ Definition start (rt : rtable) (start_rule : nat) : err (list sinstr) :=
   (* encoder{program, callees, eps | preskip}; skip(start_rule.entry_mode, noskip) *)
   let st0 := {| modes := [N.lor E P]; entry := 0 |} in
   do (sk, _st) <- skip (spacefn_for rt None) (r_entry (rt_get rt start_rule)) Nn st0;
-  let s0 := {| l_code := cg sk; l_addrs := []; l_lrec := []; l_halt := None; l_work := [([(start_rule, false)], start_rule)] |} in
+  let pre := cg sk ++ [TCall start_rule 0 0; TI (IJump 0)] in
+  let s0 := {| l_code := pre; l_addrs := []; l_lrec := []; l_halt := Some (len (cg sk) + 1); l_work := [([(start_rule, false)], start_rule)] |} in
   match link_loop (S (S (total_callees rt + length rt))) rt s0 with
   | None => Err e_limit
   | Some s => resolve_code s (l_code s) 0 (len (l_code s))
